@@ -1,18 +1,18 @@
 (* ConvertProofs.v — C16: the conversion statements as compositions through canonical content. *)
-From Cassis Require Import Base Heap Schema Canon Reach JsonDoc Json JsonProofs JsonProofs2 JsonLoadProofs Convert.
-From Cassis Require Lex Xmi XmiDoc XmiProofs.
+From Cassis Require Import Base Heap Schema Canon Reach JsonDoc Json JsonProofs JsonProofs2 JsonLoadProofs Convert ConvertWf ConvertInline.
+From Cassis Require Lex Xmi XmiDoc XmiProofs XmiDocOk XmiLoad XmiRt XmiRtProofs.
 Open Scope Z_scope.
 
-(* inline_outline at a CAS: the XMI view of its canonical content is inline_of of its JSON view.  Evaluated as a boolean
-   on every CAS of every generated chain (CorrC16.inline_outlineb on the observed views); not proved here — it relates
-   the two traversals of Cas._find_all_fs (with and without inlinable collections). *)
+(* inline_outline at a CAS: the XMI view of its canonical content is inline_of of its JSON view.  PROVED for every
+   well-formed CAS in ConvertInline.v (inline_outline, premise ConvertWf.wf_convb: a boolean on schema and CAS); the
+   theorems that take it as a premise are kept below (suffix _given_outline), followed by the ones that do not. *)
 Definition inline_outline_at (s : schema) (c : cas) : Prop :=
   (do j <- canon_json s c ;; inline_of s j) = Xmi.canon_xmi s c.
 
 (* XMI -> CAS -> JSON -> CAS.  c1 is the CAS loaded first (from any XMI document), j the JSON document written from it,
    c1' the same CAS with the ids the save assigned.  What the JSON reader builds from j, seen in the XMI view, is the
    XMI view of c1': views, sofa data, feature structures, ids, values, reference structure, offsets, membership. *)
-Theorem xmi_json_xmi L s mode c1 j c1' cc :
+Theorem xmi_json_xmi_given_outline L s mode c1 j c1' cc :
   lex_ok L -> save_json L s mode c1 = Ok (j, c1') -> wf_jsonb s c1' = true -> 0 < c_next_id c1 ->
   doc_ok_json L s j = true ->                       (* the document is well-formed (a boolean on j alone) *)
   initial_view_in c1' = true -> canon_json s c1' = Ok cc ->
@@ -34,7 +34,7 @@ Proof. intros HL HS HW HT HD HV HC. rewrite HC. exact (json_roundtrip L s mode c
 (* JSON -> CAS -> XMI -> CAS.  c1 is the CAS loaded first (its JSON view is what the JSON document j0 denotes), x the XMI
    document written from it.  Read by the XMI denotation, x describes the XMI view of what j0 says, up to ""/null inside
    string collections; the final CAS is whatever the XMI reader builds from x (C01/C05: its content is denote_xmi x). *)
-Theorem json_xmi_json L s (fmt_flt : flt -> string) (parse_flt : string -> option flt) j0 c1 x c1' :
+Theorem json_xmi_json_given_outline L s (fmt_flt : flt -> string) (parse_flt : string -> option flt) j0 c1 x c1' :
   (forall f, parse_flt (fmt_flt f) = Some f) -> (forall f, Lex.tok_ok (fmt_flt f)) ->
   canon_json s c1 = denote_json L s j0 ->           (* c1 is a load of j0 *)
   Xmi.save_xmi fmt_flt s c1 = Ok (x, c1') ->
@@ -50,7 +50,7 @@ Qed.
 
 (* both legs of chain B in one statement about documents: the XMI document written after loading j0 and the XMI view of
    j0's denotation agree; with xmi_json_xmi this closes both chains at the level of canonical content *)
-Corollary conversion_documents_agree L s mode (fmt_flt : flt -> string) (parse_flt : string -> option flt) c x c' j c'' :
+Corollary conversion_documents_agree_given_outline L s mode (fmt_flt : flt -> string) (parse_flt : string -> option flt) c x c' j c'' :
   lex_ok L -> (forall f, parse_flt (fmt_flt f) = Some f) -> (forall f, Lex.tok_ok (fmt_flt f)) ->
   Xmi.save_xmi fmt_flt s c = Ok (x, c') ->
   (forall all, Xmi.written s c = Ok (c', all) -> Xmi.wf_xmib s c' all = true) ->
@@ -62,4 +62,76 @@ Proof.
   rewrite (XmiProofs.denote_save_xmi fmt_flt parse_flt H1 H2 s c x c' HX HWX).
   rewrite (denote_save_json L s mode c j c'' HL HJ HWJ HT).
   unfold inline_outline_at in HI. rewrite <- HE, <- HI. destruct (canon_json s c''); reflexivity.
+Qed.
+
+(* ================================================================================================================ *)
+(* without the inline_outline premise                                                                                *)
+(* ================================================================================================================ *)
+
+Theorem inline_outline_holds s c j : wf_convb s c = true -> canon_json s c = Ok j -> inline_outline_at s c.
+Proof. intros W E. unfold inline_outline_at. rewrite E. cbn [bind]. exact (inline_outline s c j W E). Qed.
+
+Lemma wf_convb_parts s c : wf_convb s c = true ->
+  Xmi.wf_inb s c = true /\ XmiLoad.schema_okb s = true /\ wf_jsonb s c = true /\ ids_distinctb s c = true /\
+  refs_wfb s c = true /\ slots_declb s (c_heap c) = true.
+Proof.
+  unfold wf_convb. intros H.
+  repeat match type of H with (_ && _ = true) => apply andb_prop in H; let H' := fresh "P" in destruct H as [H H'] end.
+  repeat split; assumption.
+Qed.
+
+(* XMI -> CAS -> JSON -> CAS.  c1 is the CAS loaded first, j the JSON document written from it, c1' the same CAS with the
+   ids the save assigned (nothing changes when c1 comes from a load: every structure has its id).  What the JSON reader
+   builds from j, seen in the XMI view, is the XMI view of c1'. *)
+Theorem xmi_json_xmi L s mode c1 j c1' cc :
+  lex_ok L -> save_json L s mode c1 = Ok (j, c1') -> wf_convb s c1' = true -> 0 < c_next_id c1 ->
+  doc_ok_json L s j = true -> initial_view_in c1' = true -> canon_json s c1' = Ok cc ->
+  (do x <- load_json L s j ;; inline_of s x) = Xmi.canon_xmi s c1'.
+Proof.
+  intros HL HS HW HT HD HV HC. destruct (wf_convb_parts s c1' HW) as (_ & _ & HJ & _).
+  exact (xmi_json_xmi_given_outline L s mode c1 j c1' cc HL HS HJ HT HD HV HC (inline_outline_holds s c1' cc HW HC)).
+Qed.
+
+(* JSON -> CAS -> XMI -> CAS.  c1 is the CAS loaded first: its JSON view jv is what the JSON document j0 denotes.  x is
+   the XMI document written from it and c2 what the XMI reader mechanism (XmiLoad.load_xmi) builds from x.  The
+   canonical content of c2 is the XMI view of what j0 says, up to ""/null inside string collections.  The XMI reader leg
+   is the theorem C01_xmi_roundtrip_partial (XmiRtProofs.xmi_roundtrip_load = C04_denote_save_xmi + C01 reader_okb of the
+   written document + C05_load_xmi_is_denotation); the adapter between the reader's own CAS type lcas and ccas is
+   XmiLoad.canon_loaded. *)
+Theorem json_xmi_json L s (fmt_flt : flt -> string) (parse_flt : string -> option flt) j0 c1 jv x c1' c2 :
+  (forall f, parse_flt (fmt_flt f) = Some f) -> (forall f, Lex.tok_ok (fmt_flt f)) ->
+  denote_json L s j0 = Ok jv -> canon_json s c1 = Ok jv ->                 (* c1 is a load of j0 *)
+  wf_convb s c1 = true -> XmiRt.wf_rtb s c1 = true ->
+  Xmi.save_xmi fmt_flt s c1 = Ok (x, c1') -> XmiLoad.load_xmi parse_flt s false x = Ok c2 ->
+  XmiLoad.canon_loaded s c2 = (do v <- inline_of s jv ;; Ok (XmiDoc.norm_xmi s v)).
+Proof.
+  intros H1 H2 HD HJ HW HR HS HLd.
+  rewrite (XmiRtProofs.xmi_roundtrip_load fmt_flt parse_flt H1 H2 s c1 x c1' c2 HR HS HLd).
+  rewrite (inline_outline s c1 jv HW HJ). reflexivity.
+Qed.
+(* the same leg over the declarative reading of the XMI document (no reader mechanism, no wf_rtb) *)
+Theorem json_xmi_json_denote L s (fmt_flt : flt -> string) (parse_flt : string -> option flt) j0 c1 jv x c1' :
+  (forall f, parse_flt (fmt_flt f) = Some f) -> (forall f, Lex.tok_ok (fmt_flt f)) ->
+  denote_json L s j0 = Ok jv -> canon_json s c1 = Ok jv -> wf_convb s c1 = true ->
+  Xmi.save_xmi fmt_flt s c1 = Ok (x, c1') ->
+  XmiDoc.denote_xmi parse_flt s x = (do v <- inline_of s jv ;; Ok (XmiDoc.norm_xmi s v)).
+Proof.
+  intros H1 H2 HD HJ HW HS. destruct (wf_convb_parts s c1 HW) as (HI & _).
+  rewrite (XmiDocOk.denote_save_xmi_wf fmt_flt parse_flt H1 H2 s c1 x c1' (proj1 (XmiDocOk.wf_inb_parts s c1 HI)) HS).
+  rewrite (inline_outline s c1 jv HW HJ). reflexivity.
+Qed.
+
+(* the two documents written from one CAS whose structures carry their ids: the XMI document denotes the XMI view of what
+   the JSON document denotes *)
+Corollary conversion_documents_agree L s mode (fmt_flt : flt -> string) (parse_flt : string -> option flt) c x c' j c'' jv :
+  lex_ok L -> (forall f, parse_flt (fmt_flt f) = Some f) -> (forall f, Lex.tok_ok (fmt_flt f)) ->
+  Xmi.wf_casb s c = true -> Xmi.save_xmi fmt_flt s c = Ok (x, c') ->
+  save_json L s mode c = Ok (j, c'') -> wf_convb s c'' = true -> 0 < c_next_id c -> canon_json s c'' = Ok jv ->
+  Xmi.canon_xmi s c'' = Xmi.canon_xmi s c ->
+  XmiDoc.denote_xmi parse_flt s x = (do jv <- denote_json L s j ;; do v <- inline_of s jv ;; Ok (XmiDoc.norm_xmi s v)).
+Proof.
+  intros HL H1 H2 HWX HX HJ HW HT HC HE. destruct (wf_convb_parts s c'' HW) as (_ & _ & HWJ & _).
+  rewrite (XmiDocOk.denote_save_xmi_wf fmt_flt parse_flt H1 H2 s c x c' HWX HX).
+  rewrite (denote_save_json L s mode c j c'' HL HJ HWJ HT), HC. cbn [bind].
+  rewrite <- HE, <- (inline_outline s c'' jv HW HC). reflexivity.
 Qed.
